@@ -203,6 +203,12 @@ fn main() {
             let mut rng = util::Rng::new(seed);
             p_vec::run_c11_one(eff_tier, &mut rng, &model, &mut rep, corpus);
             p_cgrfile::run_cgr_files(false, eff_tier, &mut rng, &model, &mut rep, &corpus_lines, &work);
+            // the Python binding has its own copy of the CGR loop (same property, same anchors)
+            let py_corpus: Vec<String> = corpus_lines.iter().filter(|l| l.starts_with("cgr ") || l.starts_with("cbatch ")).cloned().collect();
+            let mut py = p_py::run_py("C11", Some(&["cgr", "cbatch"]), eff_tier, seed, &model, py_corpus, &pymod, &work);
+            py.rules.clear();
+            py.rules.push("Python binding: CgrComputer.vectorise_one / vectorise_batch on the module built from the working tree vs the Rust core and the Lean transcription of the binding's loop".into());
+            rep.merge(py);
             rep
         }
         "C12" => {
